@@ -1222,6 +1222,11 @@ class EProxy(EObject):
         self.force_resolve()
         self._wrapped.__setattr__(name, value)
 
+    def __delattr__(self, name):
+        # as for a write: resolving also hands the referrers over
+        self.force_resolve()
+        self._wrapped.__delattr__(name)
+
     def __instancecheck__(self, instance):
         self.force_resolve()
         return self._wrapped.__instancecheck__(instance)
